@@ -376,7 +376,13 @@ def case_project_files(case):
     return core.ok(key=[case["kind"], case["history"]], outcome=len(vs), violations=vs, transitions=len(case["history"]), traces=len(case["history"]))
 
 
-CASE_FUNCS = {"overwrite": case_overwrite, "history": case_history, "project_files": case_project_files}
+def case_tlc_run_edge(case):
+    from vf import tlc
+
+    return tlc.case_tlc_run_edge(case)
+
+
+CASE_FUNCS = {"overwrite": case_overwrite, "history": case_history, "project_files": case_project_files, "tlc_run_edge": case_tlc_run_edge}
 
 
 def run(run: core.Run):
@@ -419,6 +425,12 @@ def run(run: core.Run):
                     continue
                 pf.append({"kind": kind, "history": [list(x) for x in h]})
     run.map("project_files", pf, chunksize=8)
+    try:
+        from vf import tlc
+
+        tlc.run_runs(run)
+    except Exception as e:  # noqa: BLE001 - TLC unavailable is reported, not hidden
+        run.extra["tlc_error"] = repr(e)[:300]
     run.bounds = {"save_functions": list(SAVE), "formats": {f: formats_for(f) for f in SAVE}, "harness_plugins": ["nosuchformat", "vfnone", "vfhalf"],
                   "target_states": 5, "result_names": names, "history_depth": depth, "project_file_history_depth": 2 if quick else 3}  # fmt: skip
     run.rule = (
